@@ -26,7 +26,7 @@ func init() { areas["trie"] = runTrie }
 
 type byteList [][]byte
 
-func (l byteList) Len() int                             { return len(l) }
+func (l byteList) Len() int                           { return len(l) }
 func (l byteList) EncodeIndex(i int, w *bytes.Buffer) { w.Write(l[i]) }
 
 func trKey(rc *h.Rng) []byte {
